@@ -135,11 +135,7 @@ pub fn entry_decision<const ALG: u8, const H: usize, const N: usize, const K: u8
     if N == 0 {
         assert!(r == Some(0), "an empty needle matches with score 0");
     }
-    if N <= H {
-        kani::cover!(r.is_some());
-    } else {
-        kani::cover!(r.is_none());
-    }
+    kani::cover!(if N <= H { r.is_some() } else { r.is_none() });
     std::mem::forget(m);
 }
 
@@ -178,11 +174,7 @@ pub fn entry_witness<const ALG: u8, const H: usize, const N: usize, const K: u8>
             }
         }
     }
-    if N <= H {
-        kani::cover!(r.is_some());
-    } else {
-        kani::cover!(r.is_none());
-    }
+    kani::cover!(if N <= H { r.is_some() } else { r.is_none() });
     std::mem::forget(m);
 }
 
@@ -195,11 +187,7 @@ pub fn entry_agree<const ALG: u8, const H: usize, const N: usize, const K: u8>()
     let r1 = call::<ALG, true>(&mut m, &i.hay, &i.needle, &mut idx);
     let r2 = call::<ALG, false>(&mut m, &i.hay, &i.needle, &mut Vec::new());
     assert!(r1 == r2, "score-only and indices variants agree");
-    if N <= H {
-        kani::cover!(r1.is_some());
-    } else {
-        kani::cover!(r1.is_none());
-    }
+    kani::cover!(if N <= H { r1.is_some() } else { r1.is_none() });
     std::mem::forget(m);
 }
 
